@@ -18,7 +18,9 @@ from vlib import designs as D, observe as O, gen, spec as S
 ID = "C20"
 RULE = ("cases = (a) generated designs K1-K3/K5 with extra weighted uncrossed factors, synthesized by RandomGen or "
         "IterateSATGen (2-3 experiments); (b) hand-built blocks with hostile factor/level names and arbitrary "
-        "experiments (values str/int/float/''), 1-4 experiments of 1-7 trials. non-trivial = >= 1 experiment with "
+        "experiments (values str/int/float/''), 1-4 experiments of 1-7 trials; (c) blocks with 1-2 ContinuousFactors, "
+        "with / without a weighted uncrossed factor and a derived factor, synthesized by RandomGen / IterateSATGen / "
+        "IterateGen. non-trivial = >= 1 experiment with "
         ">= 2 trials converted by all three functions; distinct = distinct case contents")
 ASSUMPTIONS = ["csv files are read back with Python's csv module (the writer's dialect)"]
 MINIMUMS = {"quick": {"experiments_converted": 600, "cells_compared": 20000, "designs_with_hidden_factor": 40,
